@@ -8,6 +8,7 @@ Not carried by these theorems (named in DESIGN §4 C05): the Go memory model, th
 sync.Mutex/sync.Cond, the scheduler, the race detector.
 -/
 import Sqroot.Proofs.Monitor
+import Sqroot.Proofs.MonitorFine
 import Sqroot.Model.Expect
 namespace Sqroot.Props.C05
 open Sqroot.Model Sqroot.Proofs
@@ -29,6 +30,34 @@ theorem monitor_as_modelled :
     Gen.V1.bigConstantsMutated = [] ∧ Gen.V2.bigConstantsMutated = [] ∧ Gen.V3.bigConstantsMutated = [] := by
   repeat' apply And.intro
   all_goals rfl
+
+/-- ATOMICITY OF THE CRITICAL SECTIONS IS A THEOREM: the fine-grained system (`Model/MonitorFine`:
+explicit mutex; every critical section split into its individual shared-memory accesses — read
+`done`/`maxLength`, write `maxLength`, Signal, loop test, Wait = release-and-park, Unlock; setData:
+write data, write done, Broadcast, Unlock; threads blocked on Lock, also after being woken)
+refines the coarse system: mutual exclusion holds, every fine step is a stutter or exactly one
+coarse transition, every reachable fine state abstracts to a reachable coarse state -/
+theorem mutual_exclusion (c : MonCfg) (programs : List (List Nat)) (s : FSt)
+    (h : FReachable c programs s) : MutexInv s :=
+  mutex_invariant c programs s h
+
+theorem fine_step_is_coarse_step_or_stutter (c : MonCfg) (programs : List (List Nat)) (s s' : FSt) (l : FLabel)
+    (h : FReachable c programs s) (hs : fStep c s l = some s') :
+    absF c s' = absF c s ∨ ∃ L, step c (absF c s) L = some (absF c s') :=
+  fine_step_simulates c programs s s' l h hs
+
+theorem fine_grained_refines_coarse (c : MonCfg) (programs : List (List Nat)) (s : FSt)
+    (h : FReachable c programs s) : Reachable c programs (absF c s) :=
+  fine_refines_coarse c programs s h
+
+/-- … so in the fine-grained system, too, every `wait(index)` that has returned gave the
+sequential answer, under every interleaving of single memory accesses -/
+theorem sequential_answers_fine_grained (c : MonCfg) (hc : 0 < c.chunk) (programs : List (List Nat))
+    (hcap : InCapacity c programs) (s : FSt) (h : FReachable c programs s) :
+    ∀ r ∈ s.readers, ∀ res ∈ r.results,
+      (res.2.2 = true → res.1 < res.2.1 ∧ ∀ k, k < res.2.1 → ValidUpTo c k) ∧
+      (res.2.2 = false → ∃ e, e ≤ res.1 ∧ IsEndPos c e) :=
+  fine_sequential_answers c hc programs hcap s h
 
 /-- every `wait(index)` that has returned gave the sequential answer -/
 theorem sequential_answers (c : MonCfg) (hc : 0 < c.chunk) (programs : List (List Nat))
